@@ -342,6 +342,7 @@ pub fn finish(ctx: &Ctx, rep: &Report, meta: &Meta) -> i32 {
         "known_findings_seen": listed.iter().map(|(k, v)| json!({"signature": k, "count": v.1})).collect::<Vec<_>>(),
         "unlisted_violation_signatures": seen.iter().cloned().collect::<Vec<_>>(),
         "counters": rep.counters,
+        "some_classes": rep.classes.iter().take(60).cloned().collect::<Vec<_>>(),
         "notes": rep.notes,
     });
     for (k, v) in &rep.sets {
